@@ -219,3 +219,198 @@ Example C12_sdpfrag_example :
       [SdpFrag.mkMd [120] [48] [] []
          [SdpFrag.mkCand [99] (Some [117]) (Some 0) (Some [48])]]).
 Proof. vm_compute. reflexivity. Qed.
+
+(* ------------------------------------------------------------------ *)
+(* The rest of package sdpfrag that the PATCH handler runs on the fragment
+   parsed from a client's body: SDPFrag.UFragPwd, SDPFrag.AllCandidates, and
+   SDPFrag.Marshal (which writes the answer of an ICE restart).  The models
+   are total functions without a Panic outcome (there is no pointer, index or
+   slice expression in the three functions); they are compared with the real
+   functions on every parsed body by the driver `sdpfrag`. *)
+From Galene Require Proofs.SdpFragRoundTrip.
+
+(* The linear definitions that are extracted are the buffer / append loops of
+   the code. *)
+Theorem C12_sdpfrag_marshal_is_buffer : forall f, SdpFrag.marshal_buf f = SdpFrag.marshal f.
+Proof. exact SdpFragRoundTrip.marshal_buf_eq. Qed.
+Print Assumptions C12_sdpfrag_marshal_is_buffer.
+
+Theorem C12_sdpfrag_all_candidates_is_loop : forall f,
+  SdpFrag.all_candidates_loop f = SdpFrag.all_candidates f.
+Proof. exact SdpFragRoundTrip.all_candidates_loop_eq. Qed.
+Print Assumptions C12_sdpfrag_all_candidates_is_loop.
+
+(* What Unmarshal establishes: no string of the fragment contains '\n', and
+   each is short enough for the line it was read from to fit the buffer. *)
+Theorem C12_sdpfrag_parsed_ok : forall data f,
+  SdpFrag.unmarshal data = SdpFrag.ROk f -> SdpFragRoundTrip.frag_ok f.
+Proof. exact SdpFragRoundTrip.unmarshal_frag_ok. Qed.
+Print Assumptions C12_sdpfrag_parsed_ok.
+
+(* Marshal: if no string of the fragment contains '\n', no emitted line does
+   (no value can add a line to what the server writes) ... *)
+Theorem C12_sdpfrag_marshal_lines : forall f, SdpFragRoundTrip.frag_nl f ->
+  Forall (fun l => ~ In 10 l) (SdpFrag.marshal_lines f).
+Proof. exact SdpFragRoundTrip.marshal_lines_no_nl. Qed.
+Print Assumptions C12_sdpfrag_marshal_lines.
+
+(* ... for a parsed fragment the emitted lines are also shorter than 64 KiB ... *)
+Theorem C12_sdpfrag_marshal_lines_parsed : forall f, SdpFragRoundTrip.frag_ok f ->
+  Forall (fun l => ~ In 10 l /\ SdpFrag.zlen l < SdpFrag.max_token) (SdpFrag.marshal_lines f).
+Proof. exact SdpFragRoundTrip.marshal_lines_in. Qed.
+Print Assumptions C12_sdpfrag_marshal_lines_parsed.
+
+(* ... and the scanner reads back exactly the emitted lines when each leaves
+   room for the '\r' that Marshal adds. *)
+Theorem C12_sdpfrag_marshal_scan : forall f,
+  Forall (fun l => ~ In 10 l /\ SdpFrag.zlen l + 1 < SdpFrag.max_token) (SdpFrag.marshal_lines f) ->
+  SdpFrag.scan_lines (SdpFrag.marshal f) = SdpFrag.marshal_lines f.
+Proof. exact SdpFragRoundTrip.scan_marshal. Qed.
+Print Assumptions C12_sdpfrag_marshal_scan.
+
+(* Round trip, for ANY fragment (parsed or not) under that condition: if the
+   parser ignores the lines "a=<Candidate>" of the session-level candidates,
+   Unmarshal (Marshal f) is [renorm f]: ufrag, password and every media section
+   with its m-line, mid, ufrag, password and candidate values in order; the
+   session-level candidates are gone and the three pointer fields of the
+   others are recomputed (ufrag pointer from the session ufrag, m-line index
+   = section number mod 2^16, mid = the mid of the section). *)
+Theorem C12_sdpfrag_roundtrip : forall f,
+  Forall (fun l => ~ In 10 l /\ SdpFrag.zlen l + 1 < SdpFrag.max_token) (SdpFrag.marshal_lines f) ->
+  Forall SdpFragRoundTrip.sess_inert (SdpFrag.f_cands f) ->
+  SdpFrag.unmarshal (SdpFrag.marshal f) = SdpFrag.ROk (SdpFragRoundTrip.renorm f).
+Proof. exact SdpFragRoundTrip.roundtrip. Qed.
+Print Assumptions C12_sdpfrag_roundtrip.
+
+(* For a fragment parsed from a body only the lengths have to be assumed. *)
+Theorem C12_sdpfrag_roundtrip_parsed : forall data f,
+  SdpFrag.unmarshal data = SdpFrag.ROk f ->
+  Forall (fun l => SdpFrag.zlen l + 1 < SdpFrag.max_token) (SdpFrag.marshal_lines f) ->
+  Forall SdpFragRoundTrip.sess_inert (SdpFrag.f_cands f) ->
+  SdpFrag.unmarshal (SdpFrag.marshal f) = SdpFrag.ROk (SdpFragRoundTrip.renorm f).
+Proof. exact SdpFragRoundTrip.roundtrip_parsed. Qed.
+Print Assumptions C12_sdpfrag_roundtrip_parsed.
+
+(* In a parsed fragment the candidates of section i already carry the ufrag
+   pointer and the index that [renorm] computes ... *)
+Theorem C12_sdpfrag_parsed_norm : forall data f,
+  SdpFrag.unmarshal data = SdpFrag.ROk f ->
+  SdpFragRoundTrip.mds_norm (SdpFragRoundTrip.uf_of (SdpFrag.f_ufrag f)) 0 (SdpFrag.f_mds f).
+Proof. exact SdpFragRoundTrip.unmarshal_norm. Qed.
+Print Assumptions C12_sdpfrag_parsed_norm.
+
+(* ... so a parsed fragment without session-level candidates, whose candidates
+   carry the mid of their section, is read back unchanged. *)
+Theorem C12_sdpfrag_roundtrip_exact : forall data f,
+  SdpFrag.unmarshal data = SdpFrag.ROk f ->
+  Forall (fun l => SdpFrag.zlen l + 1 < SdpFrag.max_token) (SdpFrag.marshal_lines f) ->
+  SdpFrag.f_cands f = [] -> SdpFragRoundTrip.mids_consistent f ->
+  SdpFrag.unmarshal (SdpFrag.marshal f) = SdpFrag.ROk f.
+Proof. exact SdpFragRoundTrip.roundtrip_exact. Qed.
+Print Assumptions C12_sdpfrag_roundtrip_exact.
+
+(* UFragPwd (trickle or restart) does not see the difference. *)
+Theorem C12_sdpfrag_roundtrip_ufrag_pwd : forall f,
+  SdpFrag.ufrag_pwd (SdpFragRoundTrip.renorm f) = SdpFrag.ufrag_pwd f.
+Proof. exact SdpFragRoundTrip.ufrag_pwd_renorm. Qed.
+Print Assumptions C12_sdpfrag_roundtrip_ufrag_pwd.
+
+(* None of the hypotheses can be dropped.  Full statement, refuted: *)
+Definition C12_sdpfrag_roundtrip_full_statement : Prop :=
+  forall data f, SdpFrag.unmarshal data = SdpFrag.ROk f ->
+                 SdpFrag.unmarshal (SdpFrag.marshal f) = SdpFrag.ROk f.
+
+Theorem C12_sdpfrag_roundtrip_refuted : ~ C12_sdpfrag_roundtrip_full_statement.
+Proof. exact SdpFragRoundTrip.roundtrip_refuted. Qed.
+Print Assumptions C12_sdpfrag_roundtrip_refuted.
+
+(* the body "a=candidate:c": Marshal writes the session-level candidate as
+   "a=c" (media sections: "a=candidate:c"), which Unmarshal ignores *)
+Theorem C12_sdpfrag_roundtrip_session_refuted :
+  SdpFrag.unmarshal SdpFragRoundTrip.w_session
+    = SdpFrag.ROk (SdpFrag.mkFrag [] [] [SdpFrag.mkCand [99] None None None] []) /\
+  SdpFrag.marshal (SdpFrag.mkFrag [] [] [SdpFrag.mkCand [99] None None None] []) = [97; 61; 99; 13; 10] /\
+  SdpFrag.unmarshal [97; 61; 99; 13; 10] = SdpFrag.ROk SdpFrag.empty_frag.
+Proof. exact SdpFragRoundTrip.roundtrip_session_refuted. Qed.
+Print Assumptions C12_sdpfrag_roundtrip_session_refuted.
+
+(* "a=candidate:ice-ufrag:x" comes back as the session ufrag "x";
+   Unmarshal rejects what Marshal wrote for "a=candidate:mid:0" *)
+Theorem C12_sdpfrag_roundtrip_session_reinterpreted :
+  (exists f, SdpFrag.unmarshal SdpFragRoundTrip.w_inject = SdpFrag.ROk f /\ SdpFrag.f_ufrag f = [] /\
+             SdpFrag.unmarshal (SdpFrag.marshal f) = SdpFrag.ROk (SdpFrag.mkFrag [120] [] [] [])) /\
+  (exists f, SdpFrag.unmarshal SdpFragRoundTrip.w_reject = SdpFrag.ROk f /\
+             SdpFrag.unmarshal (SdpFrag.marshal f) = SdpFrag.RErr).
+Proof. exact SdpFragRoundTrip.roundtrip_session_reinterpreted. Qed.
+Print Assumptions C12_sdpfrag_roundtrip_session_reinterpreted.
+
+(* "m=x / a=candidate:c / a=mid:0": the candidate was recorded with the mid
+   the section had when its line was read *)
+Theorem C12_sdpfrag_roundtrip_mid_refuted :
+  SdpFrag.unmarshal SdpFragRoundTrip.w_mid
+    = SdpFrag.ROk (SdpFrag.mkFrag [] [] []
+        [SdpFrag.mkMd [120] [48] [] [] [SdpFrag.mkCand [99] None (Some 0) (Some [])]]) /\
+  (forall f, SdpFrag.unmarshal SdpFragRoundTrip.w_mid = SdpFrag.ROk f ->
+     SdpFrag.unmarshal (SdpFrag.marshal f) =
+     SdpFrag.ROk (SdpFrag.mkFrag [] [] []
+        [SdpFrag.mkMd [120] [48] [] [] [SdpFrag.mkCand [99] None (Some 0) (Some [48])]])).
+Proof. exact SdpFragRoundTrip.roundtrip_mid_refuted. Qed.
+Print Assumptions C12_sdpfrag_roundtrip_mid_refuted.
+
+(* a candidate line of 65535 bytes ended by a bare '\n' is parsed; written
+   back with "\r\n" it no longer fits the scanner's buffer and is lost *)
+Theorem C12_sdpfrag_roundtrip_long_refuted :
+  match SdpFrag.unmarshal SdpFragRoundTrip.w_long with
+  | SdpFrag.ROk f =>
+      length (SdpFrag.all_candidates f) = 1%nat /\
+      match SdpFrag.unmarshal (SdpFrag.marshal f) with
+      | SdpFrag.ROk f' =>
+          length (SdpFrag.all_candidates f') = 0%nat /\ length (SdpFrag.f_mds f') = 1%nat
+      | _ => False
+      end
+  | _ => False
+  end.
+Proof. exact SdpFragRoundTrip.roundtrip_long_refuted. Qed.
+Print Assumptions C12_sdpfrag_roundtrip_long_refuted.
+
+(* AllCandidates of a parsed body (what the handler feeds to
+   GotICECandidate): exactly the values of the "a=candidate:" lines among the
+   lines the scanner delivers, in the order of the lines ... *)
+Theorem C12_sdpfrag_all_candidates : forall data f,
+  SdpFrag.unmarshal data = SdpFrag.ROk f ->
+  map SdpFrag.cd_cand (SdpFrag.all_candidates f)
+  = SdpFragRoundTrip.cand_values (SdpFrag.scan_lines data).
+Proof. exact SdpFragRoundTrip.all_candidates_parsed. Qed.
+Print Assumptions C12_sdpfrag_all_candidates.
+
+(* ... the session-level ones being those of the lines before the first "m="
+   line, the others those of the media sections in order. *)
+Theorem C12_sdpfrag_all_candidates_levels : forall data f,
+  SdpFrag.unmarshal data = SdpFrag.ROk f ->
+  map SdpFrag.cd_cand (SdpFrag.f_cands f)
+  = SdpFragRoundTrip.cand_values (SdpFragRoundTrip.before_m (SdpFrag.scan_lines data)) /\
+  map SdpFrag.cd_cand (flat_map SdpFrag.md_cands (SdpFrag.f_mds f))
+  = SdpFragRoundTrip.cand_values (SdpFragRoundTrip.from_m (SdpFrag.scan_lines data)).
+Proof. exact SdpFragRoundTrip.all_candidates_levels. Qed.
+Print Assumptions C12_sdpfrag_all_candidates_levels.
+
+(* Non-vacuity: the fragment of C12_sdpfrag_example satisfies the hypotheses
+   of C12_sdpfrag_roundtrip_exact; its Marshal, UFragPwd and AllCandidates. *)
+Definition c12_frag : SdpFrag.frag :=
+  SdpFrag.mkFrag [117] [] []
+    [SdpFrag.mkMd [120] [48] [] [] [SdpFrag.mkCand [99] (Some [117]) (Some 0) (Some [48])]].
+
+Example C12_sdpfrag_roundtrip_example :
+  SdpFrag.marshal c12_frag =
+    SdpFrag.p_ufrag ++ [117;13;10] ++ SdpFrag.p_m ++ [120;13;10] ++
+    SdpFrag.p_mid ++ [48;13;10] ++ SdpFrag.p_cand ++ [99;13;10] /\
+  SdpFrag.unmarshal (SdpFrag.marshal c12_frag) = SdpFrag.ROk c12_frag /\
+  SdpFrag.ufrag_pwd c12_frag = ([117], []) /\
+  map SdpFrag.cd_cand (SdpFrag.all_candidates c12_frag) = [[99]] /\
+  SdpFrag.f_cands c12_frag = [] /\ SdpFragRoundTrip.mids_consistent c12_frag /\
+  Forall (fun l => SdpFrag.zlen l + 1 < SdpFrag.max_token) (SdpFrag.marshal_lines c12_frag).
+Proof.
+  repeat split; try (vm_compute; reflexivity).
+  - repeat constructor.
+  - vm_compute. repeat constructor.
+Qed.
